@@ -324,13 +324,7 @@ func c11Concurrent(ctx *RunCtx, w *IncWorld, shared *include.Loader, limits *inc
 		ctx.T("task: SetLimits(depth=%d size=%d)", nl.MaxIncludeDepth, nl.MaxFileSizeBytes)
 		simrt.Go("c11:setlimits", func() { shared.SetLimits(nl) })
 	}
-	for n := 0; n < 5000; n++ {
-		run := sched.RunnableTasks()
-		if len(run) == 0 {
-			break
-		}
-		sched.Step(run[c.Choose("task", len(run))])
-	}
+	runTasks(c, sched, 5000)
 	for _, t := range sched.Tasks {
 		if t.State != simrt.StDone {
 			ctx.Fail(&Violation{Property: "C11", Oracle: "liveness", Class: "stuck", Msg: fmt.Sprintf("%v did not finish (deadlock between a load and an invalidation)", t)})
